@@ -13,8 +13,8 @@ def cfg : Lumina.Model.Session.Cfg :=
     maxConcurrent := Lumina.Gen.C27.MAX_CONCURRENT_REQS }
 
 /-- which versions of the code the tree contains -/
-def FIXED_P2P : Bool := false
-def FIXED_CLIENT : Bool := false
+def FIXED_P2P : Bool := true
+def FIXED_CLIENT : Bool := true
 
 def parseBeh (s : String) : Option Beh :=
   if s == "f" then some .full
